@@ -7,8 +7,8 @@
 //
 // Candidate order at a point (choice 0 is the default, any other choice is one
 // deviation): the current thread if it is enabled and not at a yield point,
-// then the other enabled threads least-recently-run first, then the current
-// thread if it is at a yield point.
+// then the other enabled threads least-recently-run first; a thread at a yield
+// point is only a candidate if no other thread is enabled (fair scheduling).
 #include "e1.hpp"
 #include "VerifHooks.hpp"
 
@@ -169,7 +169,10 @@ static int choose_next(ThreadState *cur) {
     for (auto &o : others)
       cand.push_back(o.second);
   }
-  if (cur && enabled(cur) && cur_yielding)
+  // fairness: a thread that yields (idle polling, spinning on a busy slot) is
+  // not rescheduled before another enabled thread has taken a step; it only
+  // continues at once if it is the only enabled thread
+  if (cur && enabled(cur) && cur_yielding && cand.empty())
     cand.push_back(cur->id);
   if (cand.empty())
     return -1;
